@@ -119,7 +119,8 @@ RECURSIVE WalkStratKids(_, _, _, _, _, _, _, _, _)
 WalkStrat(FL, S, p, num, d, A, o, st) ==
   LET m == Accepting(FL, S)
       sa == StratMatch(st, p, "asis", m)
-      sf == StratMatch(st, p, "lastslash", m)
+      \* the two file-name modes can only differ on a path that ends in `.`
+      sf == IF p # <<>> /\ p[Len(p)] = DOT THEN StratMatch(st, p, "lastslash", m) ELSE sa
       w == IF sa THEN Weight(num) ELSE Zero3
       here == <<B2N(sf # m), B2N(sa # m), B2N(sa # m /\ (p = <<>> \/ p[Len(p)] # DOT)), w[1], w[2], w[3]>>
   IN IF d = 0 THEN here ELSE Add6(here, WalkStratKids(FL, S, p, num, d, A, o, st, 1))
